@@ -62,7 +62,10 @@ pub mod sync {
         // depends on a niche-encoded `Option` tag and no drop glue of `T` is ever run by the model
         // (CBMC cannot fold niche tags and would explore the drop of garbage values).
         pub(crate) struct State<T> {
-            buf: [core::mem::MaybeUninit<T>; crate::QCAP],
+            // the payload slots live in their OWN leaked object: moving a value with symbolic fields
+            // into the object that also holds head/len/flags makes CBMC stop folding those control
+            // fields (measured by bisection on the bridge harnesses, DESIGN.md 9.6)
+            buf: *mut [core::mem::MaybeUninit<T>; crate::QCAP],
             head: usize,
             len: usize,
             cap: usize,
@@ -103,7 +106,7 @@ pub mod sync {
                 T: 'static,
             {
                 let s = Shared(UnsafeCell::new(State {
-                    buf: [const { core::mem::MaybeUninit::uninit() }; crate::QCAP],
+                    buf: Box::leak(Box::new([const { core::mem::MaybeUninit::<T>::uninit() }; crate::QCAP])) as *mut _,
                     head: 0,
                     len: 0,
                     cap,
@@ -123,7 +126,7 @@ pub mod sync {
                     panic!("tokio-model bound exceeded: more than QCAP queued messages");
                 }
                 let idx = (s.head + s.len) % crate::QCAP;
-                s.buf[idx].write(v);
+                unsafe { (*s.buf)[idx].write(v) };
                 s.len += 1;
             }
             fn pop(&self) -> Option<T> {
@@ -131,7 +134,7 @@ pub mod sync {
                 if s.len == 0 {
                     return None;
                 }
-                let v = unsafe { s.buf[s.head].assume_init_read() };
+                let v = unsafe { (*s.buf)[s.head].assume_init_read() };
                 s.head = (s.head + 1) % crate::QCAP;
                 s.len -= 1;
                 Some(v)
@@ -164,7 +167,7 @@ pub mod sync {
                 Ok(())
             }
             pub fn send(&self, value: T) -> SendFut<'_, T> {
-                SendFut { tx: self, value: Some(value) }
+                SendFut { tx: self, value: core::mem::MaybeUninit::new(value), present: true }
             }
             pub fn strong_count(&self) -> usize {
                 self.0.st().tx_count
@@ -175,20 +178,29 @@ pub mod sync {
         }
         pub struct SendFut<'a, T: 'static> {
             tx: &'a Sender<T>,
-            value: Option<T>,
+            // explicit flag instead of `Option<T>`: a niche-encoded tag is not folded by CBMC
+            value: core::mem::MaybeUninit<T>,
+            present: bool,
+        }
+        impl<T> SendFut<'_, T> {
+            fn take(&mut self) -> T {
+                assert!(self.present, "polled after completion");
+                self.present = false;
+                unsafe { self.value.assume_init_read() }
+            }
         }
         impl<T> Unpin for SendFut<'_, T> {}
         impl<T> core::future::Future for SendFut<'_, T> {
             type Output = Result<(), SendError<T>>;
             fn poll(mut self: core::pin::Pin<&mut Self>, _cx: &mut Context<'_>) -> Poll<Self::Output> {
                 if self.tx.0.closed() {
-                    let v = self.value.take().expect("polled after completion");
+                    let v = self.take();
                     return Poll::Ready(Err(SendError(core::mem::ManuallyDrop::new(v))));
                 }
                 if self.tx.0.st().len >= self.tx.0.st().cap {
                     return Poll::Pending;
                 }
-                let v = self.value.take().expect("polled after completion");
+                let v = self.take();
                 self.tx.0.push(v);
                 Poll::Ready(Ok(()))
             }
@@ -375,7 +387,7 @@ pub mod sync {
         }
 
         pub(crate) struct State<T> {
-            value: core::mem::MaybeUninit<T>,
+            value: *mut core::mem::MaybeUninit<T>, // own object, see mpsc::State::buf
             has_value: bool,
             rx_alive: bool,
             tx_done: bool,
@@ -384,7 +396,7 @@ pub mod sync {
             fn take(&mut self) -> Option<T> {
                 if self.has_value {
                     self.has_value = false;
-                    Some(unsafe { self.value.assume_init_read() })
+                    Some(unsafe { (*self.value).assume_init_read() })
                 } else {
                     None
                 }
@@ -426,7 +438,7 @@ pub mod sync {
 
         pub fn channel<T: 'static>() -> (Sender<T>, Receiver<T>) {
             let s: &'static Shared<T> = Box::leak(Box::new(Shared(UnsafeCell::new(State {
-                value: core::mem::MaybeUninit::uninit(),
+                value: Box::leak(Box::new(core::mem::MaybeUninit::<T>::uninit())) as *mut _,
                 has_value: false,
                 rx_alive: true,
                 tx_done: false,
@@ -440,7 +452,7 @@ pub mod sync {
                 if !s.rx_alive {
                     return Err(t);
                 }
-                s.value.write(t);
+                unsafe { (*s.value).write(t) };
                 s.has_value = true;
                 Ok(())
                 // `self` dropped here: tx_done = true
@@ -786,3 +798,91 @@ pub mod io_util_model {
     }
     impl<W: AsyncWrite + ?Sized> AsyncWriteExt for W {}
 }
+
+/// `tokio::time` (feature `time`): what penguin-mux's keepalive code names.
+/// ASSUMED CONTRACT: an `Interval` yields its ticks one at a time, each `tick().await` completing
+/// when the next tick is due.  *When* ticks are due is decided by the harness through
+/// [`time::model_release_ticks`] (the model has no clock); "one tick per period, the first one
+/// immediately" is tokio's documented behaviour and is stated as an assumption wherever a bound in
+/// wall-clock terms is derived from the per-tick contract.  `sleep`/`timeout` are present only so
+/// that the crate compiles; no unit under contract calls them.
+pub mod time {
+    use core::future::Future;
+    use core::pin::Pin;
+    use core::task::{Context, Poll};
+    pub use core::time::Duration;
+
+    static mut TICKS_DUE: usize = 0;
+    /// harness hook: `n` further ticks are due
+    pub fn model_release_ticks(n: usize) {
+        unsafe { TICKS_DUE += n }
+    }
+    pub fn model_ticks_due() -> usize {
+        unsafe { TICKS_DUE }
+    }
+
+    #[derive(Clone, Copy, Debug, PartialEq, Eq, PartialOrd, Ord)]
+    pub struct Instant(u64);
+    impl Instant {
+        pub fn now() -> Instant {
+            Instant(0)
+        }
+    }
+    #[derive(Clone, Copy, Debug, PartialEq, Eq)]
+    pub enum MissedTickBehavior {
+        Burst,
+        Delay,
+        Skip,
+    }
+    #[derive(Debug)]
+    pub struct Interval {
+        period: Duration,
+        behavior: MissedTickBehavior,
+    }
+    pub fn interval(period: Duration) -> Interval {
+        assert!(period > Duration::ZERO, "`period` must be non-zero.");
+        Interval { period, behavior: MissedTickBehavior::Burst }
+    }
+    impl Interval {
+        pub fn set_missed_tick_behavior(&mut self, behavior: MissedTickBehavior) {
+            self.behavior = behavior;
+        }
+        pub fn period(&self) -> Duration {
+            self.period
+        }
+        pub fn tick(&mut self) -> Tick<'_> {
+            Tick(self)
+        }
+    }
+    pub struct Tick<'a>(&'a mut Interval);
+    impl Future for Tick<'_> {
+        type Output = Instant;
+        fn poll(self: Pin<&mut Self>, _cx: &mut Context<'_>) -> Poll<Instant> {
+            unsafe {
+                if TICKS_DUE > 0 {
+                    TICKS_DUE -= 1;
+                    Poll::Ready(Instant(0))
+                } else {
+                    Poll::Pending
+                }
+            }
+        }
+    }
+    pub mod error {
+        #[derive(Debug, PartialEq, Eq)]
+        pub struct Elapsed(pub(crate) ());
+        impl core::fmt::Display for Elapsed {
+            fn fmt(&self, f: &mut core::fmt::Formatter<'_>) -> core::fmt::Result {
+                f.write_str("deadline has elapsed")
+            }
+        }
+        impl std::error::Error for Elapsed {}
+    }
+    pub async fn timeout<F: Future>(_duration: Duration, future: F) -> Result<F::Output, error::Elapsed> {
+        Ok(future.await)
+    }
+    pub async fn sleep(_duration: Duration) {
+        core::future::pending::<()>().await
+    }
+}
+
